@@ -5,6 +5,7 @@ package main
 
 import (
 	"bytes"
+	"context"
 	"encoding/json"
 	"encoding/xml"
 	"errors"
@@ -30,6 +31,9 @@ func (e *tagErr) Error() string { return fmt.Sprintf("stage-error-%d", e.tag) }
 func mkErr(tag int) error {
 	if tag == 0 {
 		return nil
+	}
+	if tag == eCanceled {
+		return context.Canceled
 	}
 	return &tagErr{tag}
 }
@@ -104,6 +108,9 @@ func classify(err error, ref map[string]bool) int {
 	if err == nil {
 		return 0
 	}
+	if errors.Is(err, context.Canceled) {
+		return eCanceled
+	}
 	var te *tagErr
 	if errors.As(err, &te) {
 		return te.tag
@@ -152,6 +159,9 @@ type execState struct {
 	hookResp  *req.Response
 	hookErr   error
 	stubFault string
+	cancel    context.CancelFunc
+	ctxCutAt  int // attempt in which the stub cancelled the context (-1: never)
+	sleepCut  bool
 }
 
 func (s *execState) attempt() int {
@@ -226,6 +236,13 @@ func (s *execState) transport(hr *http.Request) (*http.Response, error) {
 		}
 		t = *rs
 	}
+	if k == 0 && at.Ctx != "" {
+		s.cancel()
+		s.ctxCutAt = a
+		if at.Ctx == "transport" {
+			return nil, hr.Context().Err()
+		}
+	}
 	if t.Fail != 0 {
 		return nil, mkErr(t.Fail)
 	}
@@ -292,7 +309,7 @@ type marshalBody struct {
 }
 
 func execute(p *progSpec, origin *realOrigin) (o obsT, res *okT, er *errT) {
-	st := &execState{p: p, sends: map[int]int{}}
+	st := &execState{p: p, sends: map[int]int{}, ctxCutAt: -1}
 	ref := refMessages(p)
 	c := req.C()
 	if origin == nil {
@@ -367,6 +384,14 @@ func execute(p *progSpec, origin *realOrigin) (o obsT, res *okT, er *errT) {
 		c.OnError(func(client *req.Client, r *req.Request, resp *req.Response, err error) {
 			st.ev("onerror", 0)
 			st.hookResp, st.hookErr = resp, err
+			switch p.HookMode {
+			case "set":
+				resp.Err = mkErr(p.HookTag)
+			case "clear":
+				resp.Err = nil
+			case "panic":
+				panic(mkErr(p.HookTag))
+			}
 		})
 	}
 	nUd, nW, nCli, nReq := 0, 0, 0, 0
@@ -454,18 +479,34 @@ func execute(p *progSpec, origin *realOrigin) (o obsT, res *okT, er *errT) {
 		}
 		rq.OnAfterResponse(st.mwFunc("req", i))
 	}
+	ctx, cancel := context.WithCancel(context.Background())
+	st.cancel = cancel
+	defer cancel()
+	rq.SetContext(ctx)
 	if p.Retry {
-		rq.SetRetryCount(p.Max).SetRetryFixedInterval(0)
-		rq.SetRetryHook(func(resp *req.Response, err error) {
-			// hooks run after RetryAttempt++ but belong to the iteration that decided to retry
-			st.mu.Lock()
-			st.log = append(st.log, logEv{Kind: "hook", Attempt: rq.RetryAttempt - 1})
-			st.mu.Unlock()
+		rq.SetRetryCount(p.Max)
+		rq.SetRetryInterval(func(resp *req.Response, attempt int) time.Duration {
+			if a := attempt - 1; a >= 0 && a < len(p.Attempts) && p.Attempts[a].SleepCancel {
+				st.sleepCut = true
+				cancel()
+				return 30 * time.Second
+			}
+			return 0
 		})
-		if p.Conds {
-			rq.SetRetryCondition(func(resp *req.Response, err error) bool {
-				st.ev("cond", 0)
-				return p.Attempts[st.attempt()].Cond
+		for i := 0; i < p.NHooks; i++ {
+			i := i
+			rq.AddRetryHook(func(resp *req.Response, err error) {
+				// hooks run after RetryAttempt++ but belong to the iteration that decided to retry
+				st.mu.Lock()
+				st.log = append(st.log, logEv{Kind: "hook", I: i, Attempt: rq.RetryAttempt - 1})
+				st.mu.Unlock()
+			})
+		}
+		for i := 0; i < p.NConds; i++ {
+			i := i
+			rq.AddRetryCondition(func(resp *req.Response, err error) bool {
+				st.ev("cond", i)
+				return p.Attempts[st.attempt()].Conds[i]
 			})
 		}
 	}
@@ -482,7 +523,7 @@ func execute(p *progSpec, origin *realOrigin) (o obsT, res *okT, er *errT) {
 		defer func() {
 			if v := recover(); v != nil {
 				_, isRt := v.(runtime.Error)
-				if e, ok := v.(error); ok && !isRt && (p.Entry == "mustget" || p.Entry == "mustpost") {
+				if e, ok := v.(error); ok && !isRt {
 					o.Panic = true
 					err = e
 					return
@@ -518,7 +559,13 @@ func execute(p *progSpec, origin *realOrigin) (o obsT, res *okT, er *errT) {
 	o.Log = append([]logEv{}, st.log...)
 	if p.ReqErr == 0 {
 		o.Iters = rq.RetryAttempt + 1
+		if st.sleepCut { // RetryAttempt was incremented, the next iteration never started
+			o.Iters--
+		}
 	}
+	o.SleepCut = st.sleepCut
+	o.CtxCutAt = st.ctxCutAt
+	o.HookErr = classify(st.hookErr, ref)
 	o.Order = st.order
 	if st.stubFault != "" {
 		o.RtPanic = "stub: " + st.stubFault
